@@ -36,9 +36,9 @@ class Boom(Exception):
 
 
 _PY = ["random", "randrange", "randint", "choice", "choices", "shuffle", "sample", "uniform", "gauss",
-       "normalvariate", "getrandbits"]
+       "normalvariate", "getrandbits", "seed", "setstate"]
 _NP = ["permutation", "shuffle", "choice", "randint", "normal", "random", "rand", "uniform", "random_sample",
-       "standard_normal"]
+       "standard_normal", "seed", "set_state"]
 
 
 class Tape:
@@ -48,6 +48,7 @@ class Tape:
         self.mode = mode
         self.script = list(script or [])
         self.log = []
+        self.reseeds = []
         self.sink = sink            # optional callable(event) for interleaving with callback events
         self._orig = {}
 
@@ -68,6 +69,11 @@ class Tape:
         random.gauss = lambda mu=0.0, sigma=1.0: mu + sigma * self._normal()
         random.normalvariate = lambda mu=0.0, sigma=1.0: mu + sigma * self._normal()
         random.getrandbits = self._getrandbits
+        # the library must never (re)seed or set the state of the global generators: that is the user's business
+        random.seed = lambda *a, **k: self._reseed("random.seed", ("py", "seed"), a, k)
+        random.setstate = lambda *a, **k: self._reseed("random.setstate", ("py", "setstate"), a, k)
+        np.random.seed = lambda *a, **k: self._reseed("np.random.seed", ("np", "seed"), a, k)
+        np.random.set_state = lambda *a, **k: self._reseed("np.random.set_state", ("np", "set_state"), a, k)
         np.random.permutation = self._np_permutation
         np.random.shuffle = self._np_shuffle
         np.random.choice = self._np_choice
@@ -86,6 +92,11 @@ class Tape:
         return False
 
     # -- core
+    def _reseed(self, api, key, a, k):
+        self.reseeds.append(api)
+        self._emit("reseed", None, 0, api)
+        return self._orig[key](*a, **k)
+
     def _emit(self, kind, rng, val, api):
         ev = {"k": "draw", "kind": kind, "range": rng, "v": val, "api": api}
         self.log.append(ev)
